@@ -24,6 +24,7 @@ structure ZInfo where
   off  : Int
   k    : Clock
   dim  : Int
+  dimLoc : Int := 0      -- diagnostic: month length as the pinned `daysInMonth` computes it in this zone
   deriving Inhabited
 
 structure SetD where
@@ -114,6 +115,12 @@ def inSetSpec (σ : St) (n : String) : Bool :=
   | none => false
   | some ivs => ivs.any fun iv => (specOn σ iv "UTC").getD false
 
+/-- F9 diagnostic: at this instant some zone's local calendar lacks the last day of the
+    month, so the pinned `daysInMonth` (evaluated in the location) is off. -/
+def f9 (σ : St) : String := if σ.zs.any (fun i => i.dimLoc ≠ i.dim) then "@month-end-skipped-in-zone" else ""
+
+def f9suffix (σ : St) (c : String) : String := c ++ f9 σ
+
 def allConfigured (σ : St) (ns : List String) : Bool := ns.all fun n => (lookup σ.cfg n).isSome
 
 def sameSet (a b : List String) : Bool := a.all (b.contains ·) && b.all (a.contains ·)
@@ -198,9 +205,9 @@ def step (σ : St) (op obs : List String) : St × List Msg :=
     let u := toInt! unix
     let infos : List ZInfo := zs.filterMap fun tok =>
       match tok.splitOn ":" with
-      | [z, off, y, m, d, wd, h, mi, dim] =>
+      | [z, off, y, m, d, wd, h, mi, dim, dimLoc] =>
         some { zone := unhexStr z, off := toInt! off,
-               k := ⟨toInt! y, toInt! m, toInt! d, toInt! wd, toInt! h, toInt! mi⟩, dim := toInt! dim }
+               k := ⟨toInt! y, toInt! m, toInt! d, toInt! wd, toInt! h, toInt! mi⟩, dim := toInt! dim, dimLoc := toInt! dimLoc }
       | _ => none
     let msgs := infos.flatMap fun i =>
       let k := clockOf (u + i.off)
@@ -228,9 +235,9 @@ def step (σ : St) (op obs : List String) : St × List Msg :=
         | some sp =>
           if sp = impl then tags
           else if impl then
-            Msg.propfail "contains_iff_spec" s!"accepts-outside-{specWhy σ iv caller}" s!"set={hexStr s.name} unix={u} spec=false impl=true" :: tags
+            Msg.propfail "contains_iff_spec" s!"accepts-outside-{specWhy σ iv caller}{f9 σ}" s!"set={hexStr s.name} unix={u} spec=false impl=true" :: tags
           else
-            Msg.propfail "contains_iff_spec" "rejects-instant-inside" s!"set={hexStr s.name} unix={u} spec=true impl=false" :: tags
+            Msg.propfail "contains_iff_spec" s!"rejects-instant-inside{f9 σ}" s!"set={hexStr s.name} unix={u} spec=true impl=false" :: tags
     (σ, d ++ pf)
   | ["m", unix, ns], o :: rest =>
     let u := toInt! unix
@@ -248,8 +255,8 @@ def step (σ : St) (op obs : List String) : St × List Msg :=
         let want := nl.filter (inSetSpec σ)
         let got := names (rest.headD "-")
         let flag : Bool := decide (o = "1")
-        (if flag ≠ !want.isEmpty then [Msg.propfail "mutes_spec" "muted-flag" s!"unix={u} names={ns} spec={!want.isEmpty} impl={flag}"] else []) ++
-        (if !sameSet want got then [Msg.propfail "mutes_spec" "muting-names" s!"unix={u} spec={showNames want} impl={showNames got}"] else []) ++
+        (if flag ≠ !want.isEmpty then [Msg.propfail "mutes_spec" s!"muted-flag{f9 σ}" s!"unix={u} names={ns} spec={!want.isEmpty} impl={flag}"] else []) ++
+        (if !sameSet want got then [Msg.propfail "mutes_spec" s!"muting-names{f9 σ}" s!"unix={u} spec={showNames want} impl={showNames got}"] else []) ++
         [.tag (if flag then "m:muted" else "m:not-muted")]
     (σ, expectEq "mutes" modelObs implObs ++ pf)
   | ["st", now, mode, mn, an, n, route], [nout, err, muted, mnames] =>
@@ -284,17 +291,17 @@ def step (σ : St) (op obs : List String) : St × List Msg :=
         let ns := muteN.getD []
         let by_ := ns.filter (inSetSpec σ)
         let want := by_.isEmpty
-        (if implPassed ≠ want then [Msg.propfail "mute_gate" (if implPassed then "notified-while-muted" else "dropped-while-not-muted") s!"unix={now} mute={mn}"] else []) ++
+        (if implPassed ≠ want then [Msg.propfail "mute_gate" (f9suffix σ <| if implPassed then "notified-while-muted" else "dropped-while-not-muted") s!"unix={now} mute={mn}"] else []) ++
         (if implMuted ≠ !implPassed then [Msg.propfail "mute_gate" "marker-flag" s!"unix={now} passed={implPassed} marker={implMuted}"] else []) ++
-        (if !sameSet by_ implNames then [Msg.propfail "mute_gate" "marker-names" s!"unix={now} spec={showNames by_} impl={mnames}"] else []) ++
+        (if !sameSet by_ implNames then [Msg.propfail "mute_gate" (f9suffix σ "marker-names") s!"unix={now} spec={showNames by_} impl={mnames}"] else []) ++
         [.tag (if want then "gate:mute-open" else "gate:mute-closed")]
       | "a" =>
         if !inDom actN then [.tag "st:out-of-domain"] else
         let ns := actN.getD []
         let want := ns.isEmpty || ns.any (inSetSpec σ)
-        (if implPassed ≠ want then [Msg.propfail "active_gate" (if implPassed then "notified-while-inactive" else "dropped-while-active") s!"unix={now} active={an}"] else []) ++
+        (if implPassed ≠ want then [Msg.propfail "active_gate" (f9suffix σ <| if implPassed then "notified-while-inactive" else "dropped-while-active") s!"unix={now} active={an}"] else []) ++
         (if implMuted ≠ !implPassed then [Msg.propfail "active_gate" "marker-flag" s!"unix={now} passed={implPassed} marker={implMuted}"] else []) ++
-        (if !implPassed ∧ implNames ≠ ns then [Msg.propfail "active_gate" "marker-names" s!"unix={now} spec={an} impl={mnames}"] else []) ++
+        (if !implPassed ∧ implNames ≠ ns then [Msg.propfail "active_gate" (f9suffix σ "marker-names") s!"unix={now} spec={an} impl={mnames}"] else []) ++
         [.tag (if want then "gate:active-open" else "gate:active-closed")]
       | _ =>
         if !(inDom actN && inDom muteN) then [.tag "st:out-of-domain"] else
@@ -304,9 +311,9 @@ def step (σ : St) (op obs : List String) : St × List Msg :=
         let by_ := mns.filter (inSetSpec σ)
         let want := active && by_.isEmpty
         let wantNames := if !active then ans else by_
-        (if implPassed ≠ want then [Msg.propfail "route_gate" (if implPassed then "notified-while-gated" else "dropped-while-open") s!"unix={now} mute={mn} active={an}"] else []) ++
+        (if implPassed ≠ want then [Msg.propfail "route_gate" (f9suffix σ <| if implPassed then "notified-while-gated" else "dropped-while-open") s!"unix={now} mute={mn} active={an}"] else []) ++
         (if implMuted ≠ !implPassed then [Msg.propfail "route_gate" "marker-flag" s!"unix={now} passed={implPassed} marker={implMuted}"] else []) ++
-        (if !sameSet wantNames implNames then [Msg.propfail "route_gate" "marker-names" s!"unix={now} spec={showNames wantNames} impl={mnames}"] else []) ++
+        (if !sameSet wantNames implNames then [Msg.propfail "route_gate" (f9suffix σ "marker-names") s!"unix={now} spec={showNames wantNames} impl={mnames}"] else []) ++
         [.tag (if want then "gate:route-open" else if active then "gate:route-muted" else "gate:route-inactive")]
     (σ', expectEq "stage" modelObs implObs ++ pf)
   | _, _ => (σ, [.diff "parse" "?" (" ".intercalate op)])
